@@ -20,6 +20,19 @@ def mk(ctx, _ty, _hint='', **fields):
     return Agg(name, [fields[f] for f in order])
 
 
+def mk_opt(ctx, _ty, _hint='', **fields):
+    """like mk, but fields the source struct does not have (any more) are dropped"""
+    order = ctx.src.struct_fields(_ty, _hint)
+    if order is None:
+        raise Unsupported('struct %s not found' % _ty)
+    return mk(ctx, _ty, _hint, **{k: v for k, v in fields.items() if k in order})
+
+
+def has_field(ctx, name, field, hint=''):
+    order = ctx.src.struct_fields(name, hint)
+    return order is not None and field in order
+
+
 def fld(ctx, v, name, field, hint=''):
     order = ctx.src.struct_fields(name, hint)
     return v.fields[order.index(field)]
